@@ -35,6 +35,9 @@ class Ctx:
                    samples=self.samples[:4] or ["(no samples)"],
                    evaluations=max(self.steps, 1), tlc_states_generated=self.tlc_generated,
                    exhaustive=self.exhaustive)
+        cov["distinct_nontrivial"] = self.traces   # independent walks / recorded traces / concurrent runs replayed on the real code
+        cov["rule"] = spec.get("rule", "a case is one walk from Init (transition tour), one recorded trace, or one concurrent run; walks are distinct by construction "
+                               "(each starts from a fresh object and is steered to edges not yet covered); non-trivial = it executed at least one action on the real code")
         cov.update(self.extra)
         return cov
 
